@@ -105,6 +105,13 @@ def generate(seed, tier="quick", mode=None, **kw):
             if val not in used_vals and len(val) > len(good) - 1:
                 used_vals.add(val)
                 secrets[str(n0 + j)] = {"cls": "j9raw", "a": val, "b": val}
+    if mode == "c08" and not odd_salt and r.random() < 0.15:
+        # a well-formed $9$ encoding of the EMPTY plaintext (salt character plus filler only): a decodable secret whose
+        # plaintext is falsy, so "key by plaintext, else by raw text" decisions can disagree between sites (seeded C08-t)
+        sc = r.choice("QzF3n6/9CAtpu0O" + G.J9_ALPHA)
+        val = G.j9_encode("", sc, r.choice("nQz7i"))
+        if len(val) >= 7 and val not in {v["a"] for v in secrets.values()}:
+            secrets[str(len(secrets))] = {"cls": "j9raw", "a": val, "b": val}
     if mode == "c08" and not odd_salt and r.random() < 0.12:
         # Juniper plaintexts that differ only in white space at their ends (only ever seen encoded): different secrets
         n0 = len(secrets)
